@@ -176,7 +176,7 @@ def run(ctx):
     codes = {}
     mat_lines = []
     fams = [('rotatedplanar', 'RotatedPlanarSMWPMDecoder'), ('rotatedtoric', 'RotatedToricSMWPMDecoder')]
-    runs_per_cfg = ctx.pick(4, 24)
+    runs_per_cfg = ctx.pick(8, 32)
     for fam, dname in fams:
         for sz in zoo.sizes(fam, quick):
             cs = (fam, tuple(sz))
